@@ -1219,6 +1219,8 @@ class Engine:
         return Ref(cell, outp)
 
     def cast(self, v, ty, kind, fr=None):
+        if hasattr(v, 'conc') and v.conc() is not None:
+            v = mkint(v.conc(), 'u8')
         if kind == 'IntToInt':
             if ty not in INT_TYPES:
                 raise Unsupported('cast to ' + ty)
@@ -1254,6 +1256,12 @@ class Engine:
         raise Unsupported('cast %s of %r to %s' % (kind, v, ty))
 
     def binop(self, op, a, b):
+        if hasattr(a, 'conc') or hasattr(b, 'conc'):
+            # a SHA-256 digest byte (or hex digit) of a fully concrete preimage is just a byte
+            if hasattr(a, 'conc') and a.conc() is not None:
+                a = mkint(a.conc(), 'u8')
+            if hasattr(b, 'conc') and b.conc() is not None:
+                b = mkint(b.conc(), 'u8')
         if isinstance(a, Bool) and isinstance(b, Bool):
             if a.c is not None and b.c is not None:
                 if op == 'Eq': return Bool(None, a.c == b.c)
